@@ -22,7 +22,7 @@ PROPS = {
     },
     "C02": {
         "engines": [CODEC],
-        "text": "Lean 4 theorem C02_det_eq_reference: for every well-formed schema and every well-typed value, the model of the generated deterministic Marshal returns exactly the bytes of the model of protobuf-go's reflection-driven encoder (plus key-bytes = protowire tag and the extracted wire-type table). Both models are tied on every run: Impl model vs the real generated code (checked-in and freshly generated corpus types), Spec model vs real dynamicpb.",
+        "text": "Lean 4 theorem C02_det_eq_reference: for every well-formed schema and every well-typed value, the model of the generated deterministic Marshal returns exactly the bytes of the model of protobuf-go's reflection-driven encoder (plus key-bytes = protowire tag and the extracted wire-type table). Both models are tied on every run: Impl model vs the real generated code (checked-in and freshly generated corpus types), Spec model vs real dynamicpb. Source level (tools/go2lean, every run): C04_src_KeySize_eq_tag_length, C05_src_marshal_flags_forwarded.",
         "note": "trusted: Lean kernel; correspondence sampling (type-directed values, boundary pools); float32 signalling NaNs are outside the reference comparison (protoreflect.Value cannot hold them); emitted Go text is not modelled, only its behaviour",
         "design": "DESIGN.md §3 C02",
     },
@@ -30,7 +30,7 @@ PROPS = {
         "facts": True,
         "lean_files": ["C03", "C03Code"],
         "engines": [DECODE],
-        "text": "Lean 4 theorem C03_decode_eq_reference: every stream the strict reference decoder model accepts (WellTyped) decodes in the model of the generated unmarshal closure to exactly the reference value, fresh or with Merge; C03_concat_reference / C03_concat_eq_merge: decoding a concatenation of two accepted streams equals decoding the first and merge-decoding the second into the result (reference model for all byte strings; generated-decoder model for well-typed streams). Both decoder models are tied to the real generated code / real dynamicpb on every run with a record-level stream generator (duplicates, packed/unpacked, partial map entries, unknown records).",
+        "text": "Lean 4 theorem C03_decode_eq_reference: every stream the strict reference decoder model accepts (WellTyped) decodes in the model of the generated unmarshal closure to exactly the reference value, fresh or with Merge; C03_concat_reference / C03_concat_eq_merge: decoding a concatenation of two accepted streams equals decoding the first and merge-decoding the second into the result (reference model for all byte strings; generated-decoder model for well-typed streams). Both decoder models are tied to the real generated code / real dynamicpb on every run with a record-level stream generator (duplicates, packed/unpacked, partial map entries, unknown records). Source level (tools/go2lean, every run): C14_src_unmarshal_options (nested decodes are called with Merge set: repeated occurrences of a singular message field merge).",
         "note": "trusted: Lean kernel; correspondence sampling; target message non-nil; proto.Unmarshal wrapper (Reset, initialisation walk) modelled from protobuf-go v1.34.0",
         "design": "DESIGN.md §3 C03",
     },
@@ -38,7 +38,7 @@ PROPS = {
         "facts": True,
         "lean_files": ["C04", "C04Code"],
         "engines": [CODEC],
-        "text": "Lean 4 theorems C04_size_eq_len / C04_size_eq_reference / C04_index_reaches_zero / C04_append for every schema, value, option combination and map iteration order, on the model of the size and marshal closures; tied to the real code on every run (Size vs len(Marshal) vs reference size, MarshalAppend with and without spare capacity and a canary).",
+        "text": "Lean 4 theorems C04_size_eq_len / C04_size_eq_reference / C04_index_reaches_zero / C04_append for every schema, value, option combination and map iteration order, on the model of the size and marshal closures; tied to the real code on every run (Size vs len(Marshal) vs reference size, MarshalAppend with and without spare capacity and a canary). Source level (tools/go2lean, every run): C04_src_KeySize_eq_tag_length (the generator's KeySize as written = number of key bytes for every legal field number), C15_src_Sov_eq_protowire_size, C15_src_Soz_eq.",
         "note": "partial: slice capacity is Go runtime behaviour, reached only by the correspondence run (prefixes with cap=len, cap>len)",
         "design": "DESIGN.md §3 C04",
     },
@@ -46,14 +46,14 @@ PROPS = {
         "facts": True,
         "lean_files": ["C05", "C05Code"],
         "engines": [CODEC],
-        "text": "Lean 4 theorems C05_order_independent (no typing needed), C05_rep_independent, C05_equiv_same_bytes: deterministic bytes are a function of the message value only (any map iteration order, nil-vs-empty, entry storage order), at every depth. Tied by marshalling rebuilt-equal values repeatedly on the real code.",
+        "text": "Lean 4 theorems C05_order_independent (no typing needed), C05_rep_independent, C05_equiv_same_bytes: deterministic bytes are a function of the message value only (any map iteration order, nil-vs-empty, entry storage order), at every depth. Tied by marshalling rebuilt-equal values repeatedly on the real code. Source level (tools/go2lean translates runtime.SizeInputToOptions / MarshalInputToOptions from the working tree on every run): C05_src_marshal_flags_forwarded, C05_src_size_and_marshal_options_agree (by exhaustion over the flags byte: nested size / marshal calls get Deterministic and UseCachedSize unchanged, and the same options).",
         "note": "partial: that the Go runtime really permutes map iteration and that the nested call receives the flag is runtime behaviour, reached by repetition in the correspondence run",
         "design": "DESIGN.md §3 C05",
     },
     "C06": {
         "engines": [DECODE],
         "lean_files": ["C06", "C06Alloc"],
-        "text": "Lean 4 theorems on the model of the generated unmarshal closure and of proto.Unmarshal's wrapper, for every schema and every byte string: C06_closure_no_panic, C06_no_panic (every slice expression is guarded), termination by construction plus C06_fuel_irrelevant (the record loop always progresses), C06_depth_bounded / C06_too_deep_rejected (recursion budget honoured: nesting beyond the protobuf-go limit is rejected), C06_post_usable (an accepted message can be sized and marshalled), C06_alloc_linear (memory requested is linear in the input length for every schema and input, accepted or rejected). Tied on every run by decoding well-typed and malformed streams (truncations, bit flips, adversarial lengths, deep nests) with the real code and the model.",
+        "text": "Lean 4 theorems on the model of the generated unmarshal closure and of proto.Unmarshal's wrapper, for every schema and every byte string: C06_closure_no_panic, C06_no_panic (every slice expression is guarded), termination by construction plus C06_fuel_irrelevant (the record loop always progresses), C06_depth_bounded / C06_too_deep_rejected (recursion budget honoured: nesting beyond the protobuf-go limit is rejected), C06_post_usable (an accepted message can be sized and marshalled), C06_alloc_linear (memory requested is linear in the input length for every schema and input, accepted or rejected). Tied on every run by decoding well-typed and malformed streams (truncations, bit flips, adversarial lengths, deep nests) with the real code and the model. Source level (tools/go2lean, every run): C06_src_nestedRecursionLimit_is_model, C06_src_budget_decreases, C14_src_limit_decreases (the recursion budget handed to nested decodes is the model's, strictly decreasing, never the unset value) and C15_src_Skip_no_panic (the translated runtime.Skip never panics, any bytes below 2^62).",
         "note": "allocation: Properties/C06Alloc.lean proves a linear bound (192 bytes per input byte) on an allocation-accounting copy of the decoder model that is proved to compute the same values; the per-site costs are abstractions of Go allocation sizes, and heap growth is additionally measured on the real code on adversarial inputs; Go stack growth is runtime behaviour; for malformed inputs only the outcome class panic / not-panic is an obligation (which malformed inputs are rejected is not part of the property)",
         "design": "DESIGN.md §3 C06",
     },
@@ -114,7 +114,7 @@ PROPS = {
     },
     "C14": {
         "engines": [DECODE, dict(CODEC, args=SMALL)],
-        "text": "Lean 4 theorems C14_unknown_step (a record with an undeclared number is appended byte for byte, in arrival order, to that level's unknown set and nothing else changes), C14_known_never_unknown, C14_reencode_unknown_last, C14_discard (decoding with DiscardUnknown = decoding without, then erasing every unknown set at every depth), C14_setUnknown_replaces / C14_getUnknown_reads / C14_get_after_set (GetUnknown and SetUnknown read and replace exactly that set, on the generated and on the reference reflection machine), together with C03 (unknown sets equal the reference's). Tied on every run by streams with unknown records of every wire type incl. nested groups injected at every level, both flags, compared through the struct view with the model and with real dynamicpb.",
+        "text": "Lean 4 theorems C14_unknown_step (a record with an undeclared number is appended byte for byte, in arrival order, to that level's unknown set and nothing else changes), C14_known_never_unknown, C14_reencode_unknown_last, C14_discard (decoding with DiscardUnknown = decoding without, then erasing every unknown set at every depth), C14_setUnknown_replaces / C14_getUnknown_reads / C14_get_after_set (GetUnknown and SetUnknown read and replace exactly that set, on the generated and on the reference reflection machine), together with C03 (unknown sets equal the reference's). Tied on every run by streams with unknown records of every wire type incl. nested groups injected at every level, both flags, compared through the struct view with the model and with real dynamicpb. Source level (tools/go2lean, every run): C14_src_unmarshal_options / C14_src_discard_forwarded (the translated runtime.UnmarshalInputToOptions sets Merge, forwards DiscardUnknown unchanged) and C15_src_Skip_is_model / C15_src_Skip_len (the translated runtime.Skip, which delimits every unknown record, is the model).",
         "note": "trusted: Lean kernel; correspondence sampling; GetUnknown/SetUnknown are covered by the reflection model (C08)",
         "design": "DESIGN.md §3 C14",
     },
